@@ -85,6 +85,15 @@ def gen_model(rng) -> dict:
         tnames.append("lx"); tlog.append(logly[j])
         eqs.append(f"lx = {names[j]}{{-1}};")
         steady["lx"] = ss[j]
+    # optional forward-looking variable: a multiple of the expected next value of a non-log variable
+    nonlog = [i for i in range(k) if not logly[i]]
+    if nonlog and rng.random() < 0.25:
+        j = rng.choice(nonlog)
+        phi = _r(rng, 0.2, 0.9)
+        params["phi"] = phi
+        tnames.append("fw"); tlog.append(False)
+        eqs.append(f"fw - phi*ss{j+1} = phi*({names[j]}{{+1}} - ss{j+1});")
+        steady["fw"] = phi * ss[j]
     shocks = [f"e{i+1}" for i in range(k) if has_shock[i]]
     # measurement block
     m = rng.choice([1, 2, 2, 3]) if len(tnames) > 1 else rng.choice([1, 1, 2])
@@ -185,6 +194,9 @@ def gen_case(rng, max_periods=8) -> dict:
         "deviation": rng.random() < 0.4,
         "rescale_variance": rng.random() < 0.4,
         "tv_stds": tv_stds, "shock_means": shock_means,
+        # observations outside the filter span (must be ignored: the data are clipped to the span)
+        "pad": [rng.choice([0, 0, 1, 2]), rng.choice([0, 0, 1, 3])],
+        "pad_value": round(rng.uniform(0.5, 5.0), 3),
     }
 
 
@@ -218,6 +230,12 @@ def input_databox(m, case: dict):
     span = start >> (start + case["nper"] - 1)
     dev = case["deviation"]
     db = ir.Databox.steady(m, span, deviation=dev)
+    pb, pa = case.get("pad", [0, 0])
+    junk = float(case.get("pad_value", 1.0))
+    wide = (start - pb) >> (start + case["nper"] - 1 + pa)
+
+    def padded(vals):
+        return np.array([junk] * pb + list(vals) + [junk] * pa, dtype=float)
     for j, nm in enumerate(model["mnames"]):
         st = model["steady"][nm]
         vals = []
@@ -229,11 +247,11 @@ def input_databox(m, case: dict):
             if dev:
                 v = v / st if model["mlog"][j] else v - st
             vals.append(v)
-        db[nm] = ir.Series(periods=span, values=np.array(vals, dtype=float))
+        db[nm] = ir.Series(periods=wide, values=padded(vals))
     for nm, col in case["tv_stds"].items():
-        db[nm] = ir.Series(periods=span, values=np.array([np.nan if v is None else v for v in col], dtype=float))
+        db[nm] = ir.Series(periods=wide, values=padded([np.nan if v is None else v for v in col]))
     for nm, col in case["shock_means"].items():
-        db[nm] = ir.Series(periods=span, values=np.array([np.nan if v is None else v for v in col], dtype=float))
+        db[nm] = ir.Series(periods=wide, values=padded([np.nan if v is None else v for v in col]))
     return db, span
 
 
@@ -880,7 +898,7 @@ def equation_residuals(case: dict, box, span, deviation: bool):
             if f"w{j+1}" in model["mshocks"]:
                 rhs += X[f"w{j+1}"][t]
             meas[(nm, t)] = dev(nm, t) - rhs
-    k = len([n for n in model["tnames"] if n != "lx"])
+    k = len([n for n in model["tnames"] if n not in ("lx", "fw")])
     for i in range(k):
         nm = model["tnames"][i]
         for t in range(nper):
